@@ -778,9 +778,6 @@ Proof.
   apply bi_range_is_spec; [lia|]. rewrite Z.sub_0_r. exact Hl.
 Qed.
 
-(* the shapes of the translator that the model and the theorems rely on are present in the code *)
-Lemma C09_code_shape_proof : evs_shape_ok = true.
-Proof. vm_compute. reflexivity. Qed.
 
 (* ---------------------------------------------------------------- the statements at the level of a rendered tag *)
 Lemma C09_if_first_truthy_proof : forall fu env c pre cond body post els vts v t,
